@@ -87,6 +87,20 @@ def job(j):
     bad = []; n = 0
     stages = [('mke2fs', None)] + steps
     for label, argv in stages:
+        if label == 'PLAIN':
+            data = open(p, 'rb').read(); im = Image(data); t0 = xtree.tree(im)
+            d = bytearray(data); d[1024:2048] = b'\0' * 1024
+            first = im.sb_block(0)
+            for b in range(first + 1, first + 1 + im.gdt_blocks): d[b * im.bs:(b + 1) * im.bs] = b'\0' * im.bs
+            with open(p, 'wb') as f: f.write(d)
+            rc, out = run([E2FSCK, '-fy', p], timeout=120); n += 1
+            rc2, out2 = run([E2FSCK, '-fn', p], timeout=120)
+            if rc not in (0, 1) or rc2 != 0:
+                bad.append('plain e2fsck -fy with destroyed primary superblock/descriptors: exit %s, then -fn exit %s: %s' % (rc, rc2, (out + out2)[-300:]))
+            else:
+                dd = [x for x in xtree.diff(t0, xtree.tree(Image(open(p, 'rb').read()))) if 'lost+found' not in x]
+                if dd: bad.append('files differ after plain e2fsck recovery: %s' % dd[:4])
+            continue
         if argv is not None:
             argv = [a.replace('{img}', p) for a in argv]
             rc, out = run(argv, timeout=120)
@@ -120,11 +134,10 @@ def main(tier, only=None):
                ('ss2_0', ['-t', 'ext4', '-O', '^has_journal,sparse_super2,^resize_inode', '-E', 'num_backup_sb=0']),
                ('metabg', ['-t', 'ext4', '-O', '^has_journal,meta_bg,^resize_inode']), ('noflex', ['-t', 'ext4', '-O', '^has_journal,^flex_bg,^resize_inode']),
                ('64bit_csum', ['-t', 'ext4', '-O', '^has_journal,64bit,metadata_csum,^resize_inode']), ('resize_inode', ['-t', 'ext4', '-O', '^has_journal,resize_inode'])]
-    if quick: layouts = [l for l in layouts if l[0] in ('sparse', 'ss2_2', 'metabg', '64bit_csum', 'nosparse')]
     jobs = []
     for bs, g in ((1024, 256), (2048, 512), (4096, 1024)) if not quick else ((1024, 256),):
         for name, args in layouts:
-            for groups in (range(1, 51) if not quick else [1, 2, 3, 4, 6, 8, 9, 10, 25, 26, 27, 28, 49, 50]):
+            for groups in (range(1, 51) if not quick else list(range(1, 13)) + [24, 25, 26, 27, 28, 49, 50]):
                 size = groups * g + (1 if bs == 1024 else 0)
                 steps = []
                 if groups in (3, 8, 26) or not quick and groups % 5 == 0:
@@ -132,7 +145,10 @@ def main(tier, only=None):
                              ('tune2fs -U', [T, '-f', '-U', '11111111-2222-3333-4444-555555555555', '{img}']),
                              ('resize2fs to 28 groups', [R, '-f', '{img}', str(28 * g + 1)]), ('e2fsck -fyD', [E2FSCK, '-fyD', '{img}'])]
                 jobs.append(('%s/bs%d/g%d' % (name, bs, groups), ['-b', str(bs), '-g', str(g), '-N', str(16 * groups)] + args, size, steps))
-    # default group size: plain e2fsck must find the backup itself
+    # default group size: plain e2fsck (no -b) must find a backup by itself
+    for name, args, size in (('default_1k', ['-b', '1024', '-t', 'ext4', '-O', '^has_journal', '-N', '64'], 3 * 8192 + 1), ('default_4k', ['-b', '4096', '-t', 'ext4', '-O', '^has_journal,metadata_csum', '-N', '64'], 2 * 32768 + 100),
+                             ('default_2k_ext2', ['-b', '2048', '-t', 'ext2', '-N', '64'], 2 * 16384 + 50)):
+        jobs.append(('%s/plain-e2fsck' % name, args, size, [('PLAIN', None)]))
     res = pmap(job, jobs, chunksize=1)
     runs = ok = skip = 0
     for (cid, st, bad, n), j in zip(res, jobs):
@@ -142,7 +158,7 @@ def main(tier, only=None):
         for b in (bad or [])[:3]:
             ck.violation('%s :: %s' % (cid, b[:70]), {'case': cid, 'mke2fs_args': j[1], 'size': j[2], 'what': b})
     ck.add(evaluations=runs, distinct_nontrivial=ok, states=len(jobs), transitions=runs, traces_validated_against_impl=runs,
-           rule='group count (quick: 14 values incl. 1,3,9,25,27,49; thorough 1..50) x layout {sparse_super, none, sparse_super2 with 2/1/0 backups, meta_bg, no flex_bg, 64bit+csum, resize_inode} x block size; '
+           rule='group count (quick: 1..12, 24..28, 49, 50; thorough 1..50) x layout {sparse_super, none, sparse_super2 with 2/1/0 backups, meta_bg, no flex_bg, 64bit+csum, resize_inode} x block size; '
                 'after mke2fs and after each of resize2fs/tune2fs/e2fsck -D transitions: (1) set of groups carrying a superblock copy == set computed from the format rule, copies current (geometry, features, checksum); '
                 '(2) for every such location: primary superblock and descriptors zeroed, e2fsck -fy -b loc -B bs must exit <=1, then e2fsck -fn = 0 and xck.tree equals the original',
            samples=[jobs[0][0], jobs[len(jobs) // 2][0], jobs[-1][0]])
